@@ -147,7 +147,6 @@ def conv_task(src, dst, datatype, via_setter=False):
             N, psd = st["N"], st["psd"]
             native = "convert"
             hints = {"src": src, "dst": dst, "datatype": datatype, "setter": via_setter}
-            tc.native = ("axis", hints)
             if P.outcome != "return":
                 P.fail("no-exception", "raises %s" % P.value.exc, replay=(native, hints))
                 return
@@ -171,6 +170,8 @@ def conv_task(src, dst, datatype, via_setter=False):
                                                           V.s_eq(st["cache_after"].at(i), st["before"](i))))
             else:
                 P.prove("setter.sides", st["sides_after"] == dst)
+        # if the code leaves the supported subset (e.g. writes through a slice view), the oracle of this conversion is searched
+        tc.native = ("convert", {"src": src, "dst": dst, "datatype": datatype, "setter": via_setter})
         tc.run_paths(I, thunk, post)
     return Task(name, run, functions=["spectrum.psd.Spectrum.get_converted_psd"])
 
